@@ -242,7 +242,7 @@ def large_ed_case(draw, tier):
             "return_set": draw(st.booleans()),
             "threshold": draw(st.integers(0, 7)),
             "op": draw(st.sampled_from(["<=", "<=", "<", "="])),
-            "n_jobs": draw(st.sampled_from([1, 1, 4, 16, -1]))}
+            "n_jobs": draw(st.sampled_from([1, 1, 2, 3, 5, 7, 11, 12, 13, 14, 15, 18, 20, 24, -1]))}
 
 
 class Large(Component):
